@@ -25,7 +25,7 @@ type Sim struct {
 	Times   []time.Time
 	St      *Store
 
-	Files   map[types.FileContractID][]byte // contract data, for storage proofs
+	Files   map[types.Hash256][]byte // contract data by Merkle root, for storage proofs
 	Mode    string
 	Counts  map[string]int // what the generator produced (input distribution)
 	MaxTxns int
@@ -81,7 +81,7 @@ func RandomNetwork(rng *rand.Rand, mode string) *consensus.Network {
 }
 
 func NewSim(rng *rand.Rand, mode string) *Sim {
-	s := &Sim{Rng: rng, Mode: mode, W: NewWallet(rng, 6), St: NewStore(), Files: map[types.FileContractID][]byte{}, Counts: map[string]int{}, MaxTxns: 6}
+	s := &Sim{Rng: rng, Mode: mode, W: NewWallet(rng, 6), St: NewStore(), Files: map[types.Hash256][]byte{}, Counts: map[string]int{}, MaxTxns: 6}
 	s.Net = RandomNetwork(rng, mode)
 	t0 := s.Net.HardforkOak.GenesisTimestamp
 	// foundation addresses are wallet addresses so that updates can be authorised
@@ -179,6 +179,15 @@ type blockCtx struct {
 	ts        time.Time
 	ephemeral []types.SiacoinElement // v2 outputs created in this block, spendable ephemerally
 	v1made    []v1eph               // v1 outputs created in this block
+	inblock   []*inblockFC          // v1 contracts created or revised in this block
+}
+
+type inblockFC struct {
+	id              types.FileContractID
+	fc              types.FileContract // as it currently stands
+	elemWindowStart uint64             // WindowStart of the diff's FileContractElement (decides the window id)
+	data            []byte
+	proved          bool
 }
 
 type v1eph struct {
@@ -444,7 +453,8 @@ func (s *Sim) v1Form(ctx *blockCtx) (types.Transaction, consensus.V1TransactionS
 	}
 	txn.FileContracts = []types.FileContract{fc}
 	s.payOutV1(ctx, &txn, sum.Sub(payout))
-	s.Files[txn.FileContractID(0)] = data
+	s.Files[FileRoot(data)] = data
+	ctx.inblock = append(ctx.inblock, &inblockFC{id: txn.FileContractID(0), fc: fc, elemWindowStart: fc.WindowStart, data: data})
 	s.Counts["v1:form"]++
 	return txn, ts, nil
 }
@@ -494,7 +504,10 @@ func (s *Sim) v1Revise(ctx *blockCtx) (types.Transaction, consensus.V1Transactio
 		fc.Payout = types.ZeroCurrency // not part of a revision
 		txn.FileContractRevisions = []types.FileContractRevision{{ParentID: e.ID, UnlockConditions: *r.UC, FileContract: fc}}
 		ts.RevisedFileContracts = append(ts.RevisedFileContracts, e.Copy())
-		s.Files[e.ID] = data
+		s.Files[FileRoot(data)] = data
+		cur := fc
+		cur.Payout = e.FileContract.Payout
+		ctx.inblock = append(ctx.inblock, &inblockFC{id: e.ID, fc: cur, elemWindowStart: e.FileContract.WindowStart, data: data})
 		s.Counts["v1:revise"]++
 		return txn, ts, nil
 	}
@@ -507,12 +520,32 @@ func (s *Sim) v1Proof(ctx *blockCtx) (types.Transaction, consensus.V1Transaction
 	var txn types.Transaction
 	var ts consensus.V1TransactionSupplement
 	child := s.ChildHeight()
+	// a contract created or revised earlier in this block can be proven at once
+	// when the window starts right now (the parent block is the window-start block)
+	for _, ib := range ctx.inblock {
+		if ib.proved || ib.elemWindowStart != child || uint64(len(ib.data)) != ib.fc.Filesize {
+			continue
+		}
+		if child < s.Net.HardforkStorageProof.Height && (ib.fc.Filesize == 0 || (child >= s.Net.HardforkTax.Height && ib.fc.Filesize%64 == 0)) {
+			continue
+		}
+		windowID := s.Tip.Index.ID
+		idx := s.Tip.StorageProofLeafIndex(ib.fc.Filesize, windowID, ib.id)
+		sp := types.StorageProof{ParentID: ib.id}
+		if ib.fc.Filesize > 0 {
+			sp.Leaf, sp.Proof = FileProof(ib.data, idx)
+		}
+		ib.proved = true
+		txn.StorageProofs = []types.StorageProof{sp}
+		s.Counts["v1:proof-same-block"]++
+		return txn, ts, nil
+	}
 	for _, e := range sortedFC(s.St.FC) {
 		fc := e.FileContract
 		if ctx.used[types.Hash256(e.ID)] || fc.WindowStart >= child || child > fc.WindowEnd {
 			continue
 		}
-		data, ok := s.Files[e.ID]
+		data, ok := s.Files[fc.FileMerkleRoot]
 		if !ok || uint64(len(data)) != fc.Filesize {
 			continue
 		}
@@ -784,7 +817,7 @@ func (s *Sim) v2Revise(ctx *blockCtx) (*v2Pending, error) {
 		s.signContract(&rev, cur.RenterPublicKey, cur.HostPublicKey)
 		p := &v2Pending{}
 		p.txn.FileContractRevisions = []types.V2FileContractRevision{{Parent: e.Copy(), Revision: rev}}
-		s.Files[e.ID] = data
+		s.Files[FileRoot(data)] = data
 		s.Counts["v2:revise"]++
 		return p, nil
 	}
@@ -806,7 +839,7 @@ func (s *Sim) v2Resolve(ctx *blockCtx) (*v2Pending, error) {
 			s.Counts["v2:expire"]++
 		case child > fc.ProofHeight && s.Rng.Intn(3) > 0:
 			cie, ok := s.St.CIE[fc.ProofHeight]
-			data, ok2 := s.Files[e.ID]
+			data, ok2 := s.Files[fc.FileMerkleRoot]
 			if !ok || !ok2 || uint64(len(data)) != fc.Filesize {
 				continue
 			}
@@ -847,7 +880,7 @@ func (s *Sim) v2Resolve(ctx *blockCtx) (*v2Pending, error) {
 			rn.RenterSignature = s.keyFor(fc.RenterPublicKey).SignHash(h)
 			rn.HostSignature = s.keyFor(fc.HostPublicKey).SignHash(h)
 			res = rn
-			s.Files[e.ID.V2RenewalID()] = data
+			s.Files[FileRoot(data)] = data
 			s.Counts["v2:renew"]++
 		default:
 			continue
@@ -984,7 +1017,7 @@ func (s *Sim) BuildBlock() BlockPlan {
 			b.V2.Transactions = append(b.V2.Transactions, p.txn)
 			s.noteEphemeral(ctx, p.txn)
 			if len(p.txn.FileContracts) == 1 && len(s.pendingData) > 0 {
-				s.Files[p.txn.V2FileContractID(p.txn.ID(), 0)] = s.pendingData[len(s.pendingData)-1]
+				s.Files[FileRoot(s.pendingData[len(s.pendingData)-1])] = s.pendingData[len(s.pendingData)-1]
 				s.pendingData = s.pendingData[:len(s.pendingData)-1]
 			}
 		}
